@@ -388,6 +388,42 @@ def run(ck):
     # reader of strings
     sdef = pm.assigns.get("string_quote")
     literal_reader = not (isinstance(sdef, ast.Call) and callee_attr(sdef) == "QuotedString")
+    if not literal_reader:
+        # a QuotedString token that keeps the quoted text raw and hands it to ast.literal_eval reads exactly what %r printed;
+        # every alternative of `string` must be such a token
+        alts = []
+        sv = pm.assigns.get("string")
+
+        def flat(e):
+            if isinstance(e, ast.BinOp) and isinstance(e.op, (ast.BitOr, ast.BitXor)):
+                flat(e.left)
+                flat(e.right)
+            elif isinstance(e, ast.Name):
+                alts.append(e.id)
+            else:
+                alts.append(None)
+        if sv is not None:
+            flat(sv)
+
+        def reads_literal(name):
+            d = pm.assigns.get(name) if name else None
+            if d is None:
+                return False
+            raw = act = False
+            calls = [c for c in ast.walk(d) if isinstance(c, ast.Call)]
+            for st in pm.tree.body:
+                if isinstance(st, ast.Expr) and isinstance(st.value, ast.Call) and isinstance(st.value.func, ast.Attribute) \
+                        and isinstance(st.value.func.value, ast.Name) and st.value.func.value.id == name:
+                    calls.append(st.value)
+            for c in calls:
+                if callee_attr(c) == "QuotedString":
+                    raw = any(k.arg in ("unquoteResults", "unquote_results") and isinstance(k.value, ast.Constant) and k.value.value is False for k in c.keywords)
+                if callee_attr(c) in ("setParseAction", "set_parse_action", "addParseAction", "add_parse_action") and c.args and isinstance(c.args[0], ast.Lambda):
+                    b = c.args[0].body
+                    p0 = c.args[0].args.args[0].arg if c.args[0].args.args else None
+                    act = isinstance(b, ast.Call) and dotted(b.func) in ("ast.literal_eval", "literal_eval") and len(b.args) == 1 and norm(b.args[0]) == "%s[0]" % p0
+            return raw and act
+        literal_reader = bool(alts) and all(reads_literal(a) for a in alts)
     lk = m.func("LocKey.__repr__")
     lk_t = [n.left.value for n in walk_body(lk) if isinstance(n, ast.BinOp) and isinstance(n.op, ast.Mod)
             and isinstance(n.left, ast.Constant) and isinstance(n.left.value, str)]
